@@ -53,6 +53,11 @@ def kind_spec(kind, pfx, exe):
     if kind == "selgive":
         return dict(setup='(def %s (ev/chan)) (put NAMES %s "%s")' % (pfx, pfx, pfx), wait="(ev/select [%s 111])" % pfx,
                     fire="(ev/spawn (ev/take %s))" % pfx, complete="(ev/take %s)" % pfx, legit=["[:give abstract:%s]" % pfx])
+    if kind in ("take-closefire", "seltake-closefire", "give-closefire"):
+        # as the abandoned wait A only: afterwards the channel is CLOSED instead of given to / taken from
+        base = kind_spec(kind.split("-")[0], pfx, exe)
+        base = dict(base, fire="(ev/chan-close %s)" % pfx)
+        return base
     if kind == "sleep":
         return dict(setup="", wait="(ev/sleep 0.07)", fire="nil", complete="nil", legit=["nil"], self_completing=True)
     if kind == "read":
@@ -69,7 +74,7 @@ def kind_spec(kind, pfx, exe):
     raise ValueError(kind)
 
 
-A_KINDS = ["take", "give", "seltake", "selgive", "sleep", "read", "procwait", "deadline"]
+A_KINDS = ["take", "give", "seltake", "selgive", "sleep", "read", "procwait", "deadline", "take-closefire", "seltake-closefire", "give-closefire"]
 B_KINDS = ["take", "give", "seltake", "selgive", "sleep", "read", "procwait", "deadline"]
 ABANDON = ["cancel", "deadline", "select-other", "timeout-arg"]
 
